@@ -41,7 +41,7 @@ func DefaultRegime() Regime {
 		TimeToStartTx: 0, ControllerKickInBlock: 1, ConversionLockPeriod: 3, CoinbaseEpochBlocks: 8,
 		MinerDifficultyWindow: params.MinerDifficultyWindow,
 		LockupDepth:    [4]uint64{3, 5, 7, 9},
-		TrimDepths:     map[uint8]uint64{0: 6, 1: 8, 2: 10, 3: 12, 4: 14, 5: 16},
+		TrimDepths:     map[uint8]uint64{0: 2, 1: 3, 2: 4, 3: 5, 4: 6, 5: 7},
 		BlocksPerMonth: params.BlocksPerMonth,
 	}
 }
@@ -108,6 +108,8 @@ var (
 func init() {
 	for i := 0; i < 6; i++ {
 		quaiAccounts = append(quaiAccounts, deterministicKey(fmt.Sprintf("quai%d", i), false))
+	}
+	for i := 0; i < 16; i++ {
 		qiAccounts = append(qiAccounts, deterministicKey(fmt.Sprintf("qi%d", i), true))
 	}
 }
